@@ -284,6 +284,7 @@ func BuildWorld(r *Run, cfg WorldCfg) (*World, error) {
 	n := r.Net
 	n.AddHost(ServerName, ServerIP)
 	n.AddHost("other.test", "10.9.9.9")
+	n.AddHost("target.test", TargetIP)
 
 	// targets
 	n.SourceIP = ServerIP
